@@ -205,3 +205,10 @@ Definition avoidsb (sch : schema) (h : heap) (root : oid) (path : string) : bool
                     (trace sch h (VRef root) (set_prefix path)))
   | _ => true
   end.
+
+(* ---------------------------------------------------------------- a type system that grows *)
+
+(* every feature listed in s is a feature in s' (boolean premise of the growth theorems; sound for
+   sch_le of PathsProofs.v) *)
+Definition sch_leb (s s' : schema) : bool :=
+  forallb (fun e => forallb (fun f => is_feature s' (fst e) f) (snd e)) s.
